@@ -255,7 +255,11 @@ func (in *Interp) visitInstr(fr *frame, instr ssa.Instruction) continuation {
 		in.store(fr, fr.get(instr.Addr).(*value), fr.get(instr.Val), instr)
 	case *ssa.If:
 		succ := 1
-		if in.decideBool(fr.get(instr.Cond).(*Term), "branch") {
+		kind := "branch"
+		if in.cfg.BranchSites {
+			kind = "branch@" + in.prog.Fset.Position(instr.Cond.Pos()).String()
+		}
+		if in.decideBool(fr.get(instr.Cond).(*Term), kind) {
 			succ = 0
 		}
 		fr.prevBlock, fr.block = fr.block, fr.block.Succs[succ]
